@@ -313,7 +313,9 @@ fn build_def(rng: &mut Rng, req: &mut String) -> RecordDefinition<NativeDatumDet
     let mut names: std::collections::BTreeMap<usize, String> = Default::default();
     // module shapes: 0 = mixed; 1 = wide (a variant with more than 16 fields: serde's tuple boundary); 2 = every field plain data that may
     // stay uninitialised (whole-record fast paths); 3 = many zero-size fields (fields sharing an offset)
-    let shape = match rng.below(16) { 0 | 1 => 1, 2 | 3 => 2, 4 | 5 => 3, _ => 0 };
+    // 4 = owning data first, later variants only remove or add plain data that may stay uninitialised (whole-record shortcuts
+    //     keyed on what a step adds rather than on what the variant holds)
+    let shape = match rng.below(16) { 0 | 1 => 1, 2 | 3 => 2, 4 | 5 => 3, 6 | 7 => 4, _ => 0 };
     for v in 0..nvar {
         let mut freed_names: Vec<String> = vec![];
         if v > 0 {
@@ -331,13 +333,15 @@ fn build_def(rng: &mut Rng, req: &mut String) -> RecordDefinition<NativeDatumDet
             let (ty, size, align, copy) = loop {
                 let t = TYPES[rng.below(TYPES.len())];
                 if shape == 2 && !t.3 { continue; }
+                if shape == 4 && v > 0 && !t.3 { continue; }
+                if shape == 4 && v == 0 && t.3 && rng.chance(2, 3) { continue; }
                 if shape == 3 && t.1 != 0 && rng.chance(1, 2) { continue; }
                 break t;
             };
             ctr += 1;
             // sometimes re-use the name of a datum removed in this very step (legal: names are per variant)
             let name = if !freed_names.is_empty() && rng.chance(1, 3) { freed_names.remove(0) } else { format!("f{}", ctr) };
-            let uninit = copy && (shape == 2 || rng.chance(1, 3));
+            let uninit = copy && (shape == 2 || (shape == 4 && v > 0) || rng.chance(1, 3));
             let id = b.add_datum_override::<(), _>(name.clone(), DatumDefinitionOverride { type_name: Some(ty.to_string()), size: Some(size), align: Some(align), allow_uninit: Some(uninit) }).unwrap();
             let id: usize = format!("{}", id).parse().unwrap();
             writeln!(req, "add {} {} {} {} {} override", name, ty, size, align, if uninit { 1 } else { 0 }).unwrap();
